@@ -51,6 +51,9 @@ func (c *Codec) decodeQuery(queryString url.Values, msg protoreflect.Message) er
 	}
 
 	for key, values := range queryString {
+		if len(values) == 0 {
+			continue
+		}
 		prop, err := propertyAtPath(root, key)
 		if err != nil {
 			return err
